@@ -91,13 +91,14 @@ func (t *recTracer) Finish(ctx context.Context, c *app.RequestContext) {
 	t.snap("finish", c)
 }
 
-var c19Outcomes = []string{"ok", "ok", "ok", "panic", "malformed", "toolarge", "fin-header", "fin-body", "rst-body", "write-error", "hijack", "close", "expect-ok", "expect-rejected"}
+var c19Outcomes = []string{"ok", "ok", "ok", "panic", "malformed", "toolarge", "fin-header", "fin-body", "rst-body", "write-error", "hijack", "close", "expect-ok", "expect-rejected", "stream-error"}
 
 func RunC19(ep *core.Episode) {
 	tp := ep.Tape
 	level := []stats.Level{stats.LevelDetailed, stats.LevelBase, stats.LevelDisabled}[tp.Weighted("level", []int{5, 2, 1})]
 	ep.Probe([]string{"level-disabled", "level-base", "level-detailed"}[int(level)])
 	tr := &recTracer{}
+	ctxTr := &ctxTracer{}
 	// values 0..4 keep their meaning as a 1-in-5 chance (recorded tapes); 5: two connections served at the same time
 	rmv := tp.Choose("returnmode", 6)
 	returnMode := rmv == 4
@@ -110,7 +111,7 @@ func RunC19(ep *core.Episode) {
 	o := SrvOpts{BufSize: 4096, MaxBody: 2000, IdleTimeout: idleTimeout}
 	o.Stream = tp.Chance("stream", 1, 4)
 	o.Configure = func(opts *config.Options) {
-		opts.Tracers = []interface{}{tr}
+		opts.Tracers = []interface{}{ctxTr, tr} // two tracers: what the first one's Start returns has to reach its own Finish
 		opts.TraceLevel = level
 		if returnMode {
 			opts.TransporterNewer = pollstub.NewStub
@@ -181,6 +182,13 @@ func RunC19(ep *core.Episode) {
 			ep.Fault("hijack")
 		case "close":
 			ctx.SetConnectionClose()
+		case "stream-error":
+			// the response body is a stream of announced length that fails half way: writing the response fails
+			// (not the flush), the connection ends
+			ctx.SetStatusCode(200)
+			ctx.Response.SetBodyStream(&failingReader{left: 100}, 5000)
+			ep.Fault("response-stream-error")
+			return
 		}
 		ctx.SetStatusCode(200)
 		ctx.Response.SetBodyString(fmt.Sprintf("ok %d", idx))
@@ -374,6 +382,10 @@ func RunC19(ep *core.Episode) {
 			}
 
 			// ---- oracle: automaton over the call log ----
+			if ctxTr.lost != "" && !concurrent {
+				ep.Fail("C19.per-request", "%s", ctxTr.lost)
+				return false
+			}
 			calls := st.calls
 			desc := func() string {
 				var s []string
@@ -567,6 +579,46 @@ func RunC19(ep *core.Episode) {
 		ep.Probe("second-connection")
 		run(prepare(1))
 	}
+}
+
+// ctxTracer: its Start marks the context, its Finish (and the handler) must get a context that carries the mark.
+type ctxTracer struct {
+	starts, finishes int
+	lost             string
+}
+
+type ctxTracerKey struct{}
+
+func (t *ctxTracer) Start(ctx context.Context, c *app.RequestContext) context.Context {
+	t.starts++
+	return context.WithValue(ctx, ctxTracerKey{}, t.starts)
+}
+
+func (t *ctxTracer) Finish(ctx context.Context, c *app.RequestContext) {
+	t.finishes++
+	if v, ok := ctx.Value(ctxTracerKey{}).(int); !ok || v != t.starts {
+		if t.lost == "" {
+			t.lost = fmt.Sprintf("Finish call %d of the first tracer received a context carrying %v, its Start had stored %d", t.finishes, ctx.Value(ctxTracerKey{}), t.starts)
+		}
+	}
+}
+
+// failingReader yields left bytes and then an error.
+type failingReader struct{ left int }
+
+func (r *failingReader) Read(p []byte) (int, error) {
+	if r.left <= 0 {
+		return 0, fmt.Errorf("scripted body stream error")
+	}
+	n := len(p)
+	if n > r.left {
+		n = r.left
+	}
+	for i := 0; i < n; i++ {
+		p[i] = 'x'
+	}
+	r.left -= n
+	return n, nil
 }
 
 // yieldTraceInfo makes every stage record a scheduling point.
